@@ -10,6 +10,7 @@ import (
 	"math/big"
 	"sort"
 	"strings"
+	"time"
 
 	"com.tuntun.rangers/node/src/common"
 	"com.tuntun.rangers/node/src/consensus/base"
@@ -284,6 +285,56 @@ func (c *caseBuf) flush(out *hx.Cases, perShard int) {
 	}
 }
 
+// safeAdd runs AddWitnessSign in its own goroutine: a panic inside the generator is returned (not
+// propagated), a call that does not return within 10 s is reported as stuck (lock never released).
+func safeAdd(gen *model.GroupSignGenerator, id groupsig.ID, sig groupsig.Signature) (add, gend bool, panicked interface{}, stuck bool) {
+	type r struct {
+		add, gend bool
+		p         interface{}
+	}
+	ch := make(chan r, 1)
+	go func() {
+		var out r
+		defer func() {
+			if p := recover(); p != nil {
+				out.p = p
+			}
+			ch <- out
+		}()
+		out.add, out.gend = gen.AddWitnessSign(id, sig)
+	}()
+	select {
+	case o := <-ch:
+		return o.add, o.gend, o.p, false
+	case <-time.After(10 * time.Second):
+		return false, false, nil, true
+	}
+}
+
+// usable reports whether the generator still answers (its lock is free) after an incident
+func usable(gen *model.GroupSignGenerator) bool {
+	ch := make(chan bool, 1)
+	go func() {
+		defer func() { recover(); ch <- true }()
+		gen.SignRecovered()
+		gen.WitnessCount()
+		gen.GetWitnessSign(mkID(big.NewInt(1)))
+	}()
+	select {
+	case <-ch:
+		return true
+	case <-time.After(5 * time.Second):
+		return false
+	}
+}
+
+// expectSign is Sign(sk, msg) computed without groupsig: H(msg) straight from bn256.HashToPoint, times sk
+func expectSign(sk *big.Int, msg []byte) []byte {
+	h := new(bn256.G1)
+	h.HashToPoint(msg)
+	return new(bn256.G1).ScalarMult(h, sk).Marshal()
+}
+
 func subsets(n, minSize int) [][]int {
 	var out [][]int
 	for m := 0; m < 1<<uint(n); m++ {
@@ -305,6 +356,7 @@ func main() {
 	rng := hx.NewRng(a.Seed)
 	res := hx.NewResult("direct search: groups of n=3..10 members (k=GetGroupK(n)) built with the groupsig API and with the node's DKG code; " +
 		"every subset of >= k members (quick: all for n<=7, 40 sampled per larger n; thorough: all), 3 arrival orders each, through AddWitnessSign and through RecoverGroupSignature; " +
+		"arrival orders with a piece re-delivered before the threshold (panic or stuck lock inside AddWitnessSign = violation); several messages per group in one process (lengths 0..100, shared 32-byte suffix/prefix, zero-padded forms, shuffled and repeated): Sign = key*HashToPoint(msg) computed independently, share verifies for its own message only, recovered signature verifies under the group key; " +
 		"repeated members and repeated dealer pieces must be refused, RandomPerm/getRandomKSignInfo must return a k-subset, GetGroupK(n) = ceil(51n/100) for n < 3000; " +
 		"model cases: ShareSeckey/AggregateSeckeys scalars, recovery with arbitrary share scalars (map and ordered slices, ids congruent mod r, repeated id), DKG runs, per-member handleSharePiece runs, RandomPerm, GetGroupK, generator runs. " +
 		"non-trivial = distinct (group, subset, order, path) with |subset| >= k, or a model case with >= 2 points")
@@ -590,6 +642,7 @@ func main() {
 		seen := map[string]bool{}
 		steps := nm + rng.Intn(4)
 		var js []interface{}
+		broken := false
 		for st := 0; st < steps; st++ {
 			j := rng.Intn(nm)
 			var y *big.Int
@@ -598,7 +651,13 @@ func main() {
 			} else {
 				y = randScalar(rng, false)
 			}
-			add, gend := gen.AddWitnessSign(mkID(ids[j]), groupsig.Sign(mkSec(y), msg))
+			add, gend, pan, stuck := safeAdd(gen, mkID(ids[j]), groupsig.Sign(mkSec(y), msg))
+			if pan != nil || stuck {
+				js = append(js, []interface{}{ids[j].String(), y.String(), "panic/stuck"})
+				res.Violate("C13/collector-panic", fmt.Sprintf("AddWitnessSign #%d (threshold %d) panicked=%v stuck=%v; generator usable afterwards=%v", st, thr, pan, stuck, usable(gen)), js)
+				broken = true
+				break
+			}
 			msgs = append(msgs, fmt.Sprintf("(%s,%s)", zs(ids[j]), zs(y)))
 			obs = append(obs, fmt.Sprintf("(%s,%s)", hx.CoqBool(add), hx.CoqBool(gend)))
 			js = append(js, []interface{}{ids[j].String(), y.String(), add, gend})
@@ -606,6 +665,10 @@ func main() {
 				seen[ids[j].String()] = true
 				firstX, firstY = append(firstX, ids[j]), append(firstY, y)
 			}
+		}
+		if broken {
+			res.Count("gen-panic", "g"+fmt.Sprint(js), true)
+			continue
 		}
 		rec := gen.SignRecovered()
 		s := big.NewInt(0)
@@ -679,6 +742,57 @@ func main() {
 			cs.add(fmt.Sprintf("CDkg %s %s %s %s %s", hx.CoqList(dl), zlist(g.ids), zlist(g.keys), zs(g.gsk), hx.CoqList(sels)),
 				map[string]interface{}{"kind": "dkg:" + g.via, "n": n, "k": g.k, "dealers": djs, "ids": strs(g.ids), "keys": strs(g.keys), "gsk": g.gsk.String()})
 			res.Count("dkg-"+g.via, fmt.Sprint("d", strs(g.ids)), true)
+
+			// arrival orders with a re-delivered piece BEFORE the threshold is reached, then further
+			// pieces: the repeat must be refused and must not count; the signature must appear exactly
+			// when k different members were heard and equal Sign(group secret)
+			for dup := 0; dup+1 < g.k || dup == 0; dup++ {
+				p := perm(rng, n)
+				var arrival []int
+				arrival = append(arrival, p[:dup+1]...)
+				arrival = append(arrival, p[rng.Intn(dup+1)]) // the repeat
+				if rng.Bool() && dup+1 < g.k {
+					arrival = append(arrival, p[rng.Intn(dup+1)]) // sometimes twice
+				}
+				arrival = append(arrival, p[dup+1:]...)
+				gen := model.NewGroupSignGenerator(g.k)
+				distinct := map[int]bool{}
+				bad := false
+				for pos, j := range arrival {
+					isDup := distinct[j]
+					distinct[j] = true
+					wasDone := len(distinct) > g.k || (len(distinct) == g.k && isDup)
+					add, gend, pan, stuck := safeAdd(gen, mkID(g.ids[j]), shareSigs[j])
+					if pan != nil || stuck {
+						res.Violate("C13/collector-panic:"+g.via, fmt.Sprintf("AddWitnessSign #%d (member %d, k=%d, %d different members so far) panicked=%v stuck=%v; generator usable afterwards=%v", pos, j, g.k, len(distinct), pan, stuck, usable(gen)),
+							map[string]interface{}{"n": n, "k": g.k, "ids": strs(g.ids), "arrival": arrival})
+						bad = true
+						break
+					}
+					wantAdd := !isDup && !wasDone
+					wantGen := len(distinct) >= g.k
+					if add != wantAdd || gend != wantGen {
+						res.Violate("C13/collector-duplicate-order:"+g.via, fmt.Sprintf("AddWitnessSign #%d (member %d, repeat=%v, %d different members, k=%d) returned add=%v generated=%v, expected %v %v", pos, j, isDup, len(distinct), g.k, add, gend, wantAdd, wantGen),
+							map[string]interface{}{"n": n, "k": g.k, "ids": strs(g.ids), "arrival": arrival})
+						bad = true
+						break
+					}
+				}
+				if !bad {
+					if got := gen.GetGroupSign(); !got.IsEqual(want) {
+						res.Violate("C13/collector-duplicate-order:"+g.via, "signature recovered after a re-delivered piece differs from Sign(group secret)",
+							map[string]interface{}{"n": n, "k": g.k, "ids": strs(g.ids), "arrival": arrival})
+					}
+				}
+				res.Count("dup-before-threshold", fmt.Sprint("db", round, n, arrival), true)
+			}
+
+			// several messages per group in one process: Sign must be a function of (key, message),
+			// whatever was hashed before (lengths 0..100, pairs sharing a 32-byte suffix / prefix, a
+			// short message and its zero-left-padded 32-byte form)
+			if n <= 6 {
+				messageFamilies(rng, res, g, fmt.Sprint(round, n))
+			}
 
 			// direct search over subsets and orders
 			subs := subsets(n, g.k)
@@ -764,6 +878,78 @@ func main() {
 	out.Close()
 	res.ModelCases = out.Total()
 	res.Write(a.Out)
+}
+
+func messageFamilies(rng *hx.Rng, res *hx.Result, g *group, tag string) {
+	var fam [][]byte
+	for _, l := range []int{0, 1, 31, 32, 33, 64, 100} {
+		fam = append(fam, rng.Bytes(l))
+	}
+	tail := rng.Bytes(32)
+	fam = append(fam, append(rng.Bytes(32), tail...), append(rng.Bytes(32), tail...)) // same 32-byte suffix
+	fam = append(fam, append(rng.Bytes(68), tail...), append([]byte{}, tail...))      // longer message / the bare suffix
+	head := rng.Bytes(32)
+	fam = append(fam, append(append([]byte{}, head...), rng.Bytes(32)...), append(append([]byte{}, head...), rng.Bytes(32)...)) // same prefix
+	short := rng.Bytes(5)
+	fam = append(fam, short, append(make([]byte, 27), short...)) // short vs zero-left-padded to 32 bytes
+	fam = append(fam, append(append([]byte{}, short...), make([]byte, 27)...))
+	// processing order: shuffled, every message twice
+	order := append(perm(rng, len(fam)), perm(rng, len(fam))...)
+	sigOf := map[string]string{}
+	sks := make([]groupsig.Seckey, g.n)
+	pks := make([]groupsig.Pubkey, g.n)
+	for j := range sks {
+		sks[j] = mkSec(g.keys[j])
+		pks[j] = *groupsig.GeneratePubkey(sks[j])
+	}
+	for step, mi := range order {
+		msg := fam[mi]
+		in := map[string]interface{}{"n": g.n, "k": g.k, "msg": hex.EncodeToString(msg), "processed_before": step, "order": order}
+		func() {
+			defer func() {
+				if p := recover(); p != nil {
+					res.Violate("C13/messages-panic", fmt.Sprint(p), in)
+				}
+			}()
+			shares := map[string]groupsig.Signature{}
+			members := perm(rng, g.n)[:g.k]
+			for _, j := range members {
+				sg := groupsig.Sign(sks[j], msg)
+				if hex.EncodeToString(sg.Serialize()) != hex.EncodeToString(expectSign(g.keys[j], msg)) {
+					res.Violate("C13/pure:sign-depends-on-history", fmt.Sprintf("Sign(key of member %d, msg) differs from key*HashToPoint(msg) after %d other signing rounds", j, step), in)
+				}
+				if !groupsig.VerifySig(pks[j], msg, sg) {
+					res.Violate("C13/share-verify:messages", fmt.Sprintf("share of member %d does not verify under its public share for this message", j), in)
+				}
+				shares[mkID(g.ids[j]).GetHexString()] = sg
+			}
+			// a share for this message must not verify for another message of the family
+			other := fam[(mi+1+rng.Intn(len(fam)-1))%len(fam)]
+			if string(other) != string(msg) {
+				j := members[0]
+				if groupsig.VerifySig(pks[j], other, shares[mkID(g.ids[j]).GetHexString()]) {
+					in["other"] = hex.EncodeToString(other)
+					res.Violate("C13/share-verify:other-message", "a share verifies under the member's public share for a different message", in)
+				}
+			}
+			rec := groupsig.RecoverGroupSignature(shares, g.k)
+			recHex := hex.EncodeToString(rec.Serialize())
+			if recHex != hex.EncodeToString(expectSign(g.gsk, msg)) {
+				res.Violate("C13/subset-order:messages", "recovered signature differs from (group secret)*HashToPoint(msg)", in)
+			}
+			if !groupsig.VerifySig(g.gpk, msg, *rec) {
+				res.Violate("C13/subset-verify:messages", "recovered signature does not verify under the group public key for this message", in)
+			}
+			for om, os := range sigOf {
+				if os == recHex && om != string(msg) {
+					in["other"] = hex.EncodeToString([]byte(om))
+					res.Violate("C13/messages-same-signature", "two different messages got the same group signature", in)
+				}
+			}
+			sigOf[string(msg)] = recHex
+		}()
+		res.Count(fmt.Sprintf("messages-len%d", len(msg)), fmt.Sprint("mf", tag, step, mi), true)
+	}
 }
 
 func evalPoly(cs []*big.Int, x *big.Int) *big.Int {
